@@ -403,17 +403,9 @@ def run(ctx, sm, facts):
     check_d(ctx, facts)
     scen_ok = all(st != 'bad' for st, _ in res.values()) and sum(1 for st, _ in res.values() if st == 'ok') >= 40
     if scen_ok:
-        soft = ('C11.d',)
-        kept = ctx.violations[:before[0]] + [v for v in ctx.violations[before[0]:] if not (v['rule'] in soft and ('no loop over' in v['what'] or 'not recognised' in v['what']))]
-        dropped = [v for v in ctx.violations[before[0]:] if v not in kept]
-        for v in dropped:
-            ctx.note('shape rule %s %s not applicable to the current shape (%s); clause decided by C11.f scenarios' % (v['rule'], v['key'], v['what'][:60]))
-        ctx.violations[:] = kept
-        kept_e = ctx.errors[:before[1]] + [e for e in ctx.errors[before[1]:] if not e.startswith('C11.')]
-        for e in ctx.errors[before[1]:]:
-            if e not in kept_e:
-                ctx.note('shape rule not evaluable (%s); clause decided by C11.f scenarios' % e[:80])
-        ctx.errors[:] = kept_e
+        # sole-writer / re-registration / walk-shape clauses are exercised by the scenarios (a duplicate never replaces or joins the table, rename /
+        # reparent collide, faults at any depth are found); the check-then-act tables of C11.a stay armed
+        ctx.defer_shape(('C11.b', 'C11.c', 'C11.d'), 'C11.f', before[0], before[1])
     ctx.not_decided.append('the acceptance clause for every library block at every width (that each constructor drives every internal wire exactly once) is decided only for the registration mechanism, not per constructor')
 
 
